@@ -14,7 +14,7 @@ def run(ctx, factor):
                 "oracle), untagged instructions unchanged, count/order/addresses unchanged; stream vs model; the rule "
                 "`call: [valid_addr]` must report exactly the tagged calls; and without the option nothing is rewritten")
     for _ in range(ctx.budget(800, 16000) * factor):
-        lo = g.pick([0x10, 0x400, 0x401000, g.int(0, 0xffff)])
+        lo = g.pick([0, 0x10, 0x400, 0x401000, g.int(0, 0xffff)])          # 0: relocatable objects, blobs mapped at 0
         hi = lo + g.pick([0, 1, 0x10, 0x1000, g.int(0, 0xffff)])
 
         def spell(v):
